@@ -37,7 +37,7 @@ pub fn run(env: &Env, run: &Run) -> (Stats, Coverage) {
     });
     st.merge(cpsweep(|c, st| {
         let x = c as u32;
-        for l in [vec![x], vec![0x61, x], vec![x, 0x61], vec![0x61, x, 0x61], vec![0xE9, x], vec![0x65E5, x], vec![0x10400, x], vec![x, 0x301], vec![0xA0, x, 0x3000]] {
+        for l in [vec![x], vec![0x61, x], vec![x, 0x61], vec![0x61, x, 0x61], vec![0xE9, x], vec![0x65E5, x], vec![0x10400, x], vec![x, 0x301], vec![0xA0, x, 0x3000], vec![0x61, x, 0x334]] {
             let s = from_cps(&l);
             check_op(env, p, Op::Prepare, &s, st);
             let e = check_op(env, p, Op::Enforce, &s, st);
@@ -65,7 +65,7 @@ pub fn run(env: &Env, run: &Run) -> (Stats, Coverage) {
     let cov = Coverage {
         rule: format!("every string of length <= {} over a 21-symbol alphabet (ASCII space, Zs of 2 and 3 bytes, NFC-changing sequences, compatibility characters, 1-4 byte letters, disallowed/unassigned/contextual) x {{prepare, enforce}} + pumped runs and ASCII block strings + every scalar value in 9 templates and next to each of its 16 other-plane aliases; oracle = non-empty -> FreeformClass(first offender) -> map non-ASCII Zs (UnicodeData gc=Zs) to U+0020 -> NFC -> non-empty; equality of whole results, so any other alteration is visible; non-trivial = a step changes the string", n),
         alphabet: json!(sigma.iter().map(|c| format!("U+{:04X}", *c as u32)).collect::<Vec<_>>()),
-        bound_completed: format!("length <= {} ({} strings) x 2 ops; sweep 1,112,064 x 9 templates x 2", n, tree_size(sigma.len(), n)),
+        bound_completed: format!("length <= {} ({} strings) x 2 ops; sweep 1,112,064 x 10 templates x 2", n, tree_size(sigma.len(), n)),
         exhaustive: false,
         assumptions: vec!["unicode-normalization's nfc() iterator is the trusted normaliser (the quick-check fast path of the subject is what is being compared against it)".into()],
         extra: json!({}),
